@@ -1609,6 +1609,10 @@ func (fr *Frame) builtin(b *ssa.Builtin, cc *ssa.CallCommon, args []Val, resT ty
 			dom, _ := e.mapComps(u)
 			r := "(" + f + " (select " + e.get(st, dom) + " " + a.T + "))"
 			fr.assumeHere("(>= " + r + " 0)")
+			// an empty map has no key (the only link between len and membership the contracts need)
+			ks := e.sortOf(u.Key())
+			d := "(select " + e.get(st, dom) + " " + a.T + ")"
+			fr.assumeHere(fmt.Sprintf("(=> (= %s 0) (forall ((k$ %s)) (! (not (select %s k$)) :pattern ((select %s k$)))))", r, ks, d, d))
 			return Val{T: r, Ty: resT}
 		}
 		v := fr.freshVal("len", resT)
